@@ -209,7 +209,15 @@ func concreteTypes(w *World, v ssa.Value, depth int, bind map[*ssa.Parameter]ssa
 	case *ssa.Const:
 		return out, true // nil
 	case *ssa.ChangeInterface:
-		return concreteTypes(w, x.X, depth, bind, seen)
+		ts, ok := concreteTypes(w, x.X, depth, bind, seen)
+		if !ok && assertIface != nil {
+			// what is asked for is an interface, and the static type of the value converted here
+			// already has its methods: whatever it holds satisfies the assertion
+			if _, isIface := x.X.Type().Underlying().(*types.Interface); isIface && types.Implements(x.X.Type(), assertIface) {
+				return map[string]bool{"interface " + namedName(x.X.Type()): true}, true
+			}
+		}
+		return ts, ok
 	case *ssa.Phi:
 		for _, e := range x.Edges {
 			ts, ok := concreteTypes(w, e, depth, bind, seen)
@@ -236,6 +244,9 @@ func concreteTypes(w *World, v ssa.Value, depth int, bind map[*ssa.Parameter]ssa
 	}
 	return nil, false
 }
+
+// assertIface: the interface an assertion under judgement asks for (nil: a concrete type).
+var assertIface *types.Interface
 
 func callResultTypes(w *World, call *ssa.Call, idx int, depth int, bind map[*ssa.Parameter]ssa.Value, seen map[ssa.Value]bool) (map[string]bool, bool) {
 	var callee *ssa.Function
@@ -330,7 +341,27 @@ func c13Assert(w *World, r *Result) {
 						r.Bad(rule, key, pos, fmt.Sprintf("asserts %s but the dominating tag test establishes %v (tag of %s is %q): the assertion panics for a well-formed tree", tname, hs, tname, want))
 						continue
 					}
+					assertIface, _ = ta.AssertedType.Underlying().(*types.Interface)
 					ts, ok := concreteTypes(w, ta.X, 0, map[*ssa.Parameter]ssa.Value{}, map[ssa.Value]bool{})
+					if ok && len(ts) > 0 && assertIface != nil {
+						// an assertion to an interface: every producer hands a value that has its methods
+						var lacking []string
+						for t := range ts {
+							if strings.HasPrefix(t, "interface ") {
+								continue
+							}
+							obj := w.Pkgs["parser"].Types.Scope().Lookup(t)
+							if obj == nil || !(types.Implements(obj.Type(), assertIface) || types.Implements(types.NewPointer(obj.Type()), assertIface)) {
+								lacking = append(lacking, t)
+							}
+						}
+						if len(lacking) == 0 {
+							assertIface = nil
+							r.Ok(rule, key, pos, "every producer of the value hands a value that has the methods of "+tname)
+							continue
+						}
+					}
+					assertIface = nil
 					if ok && len(ts) > 0 {
 						all := true
 						var names []string
